@@ -49,11 +49,11 @@ NOT_REACHED = [
 
 
 def parts(tier):
-    return [Part('task_descriptions',  c19_desc.td_cases(),    quick=3000, thorough=24000),
-            Part('pilot_descriptions', c19_desc.pd_cases(),    quick=800,  thorough=6000),
-            Part('function_payloads',  c19_funcs.fn_cases(),   quick=1500, thorough=12000),
-            Part('object_payloads',    c19_funcs.obj_cases(),  quick=300,  thorough=2000),
-            Part('slot_lists',         c19_slots.slot_cases(), quick=2000, thorough=16000)]
+    return [Part('task_descriptions',  c19_desc.td_cases(),    quick=3000, thorough=16000),
+            Part('pilot_descriptions', c19_desc.pd_cases(),    quick=800,  thorough=4000),
+            Part('function_payloads',  c19_funcs.fn_cases(),   quick=1500, thorough=8000),
+            Part('object_payloads',    c19_funcs.obj_cases(),  quick=300,  thorough=1000),
+            Part('slot_lists',         c19_slots.slot_cases(), quick=2000, thorough=10000)]
 
 
 RUNNERS = {'td'   : c19_desc.run_td,
